@@ -177,7 +177,50 @@ func intLit(r *rand.Rand) *tx {
 	return &tx{K: "lit", Lit: fmt.Sprint(v), Val: v, T: "int"}
 }
 
+// an operator applied to operands of a type that does not support it (both operands of that type),
+// or an untyped constant that does not fit the required type
+func (g *c01Gen) opError(t string) *tx {
+	r := g.r
+	v := func(tt string) *tx {
+		vs := g.vars(tt)
+		return &tx{K: "var", Name: vs[r.Intn(len(vs))]}
+	}
+	switch r.Intn(9) {
+	case 0:
+		return &tx{K: "bin", Op: []token.Token{token.SUB, token.MUL, token.QUO, token.REM}[r.Intn(4)], Kids: []*tx{v("string"), v("string")}}
+	case 1:
+		return &tx{K: "bin", Op: []token.Token{token.ADD, token.SUB, token.AND}[r.Intn(3)], Kids: []*tx{v("bool"), v("bool")}}
+	case 2:
+		return &tx{K: "bin", Op: []token.Token{token.REM, token.AND, token.OR, token.XOR, token.SHL}[r.Intn(5)], Kids: []*tx{v("float64"), v("float64")}}
+	case 3:
+		return &tx{K: "un", Op: []token.Token{token.SUB, token.XOR}[r.Intn(2)], Kids: []*tx{v([]string{"string", "bool"}[r.Intn(2)])}}
+	case 4:
+		return &tx{K: "un", Op: token.NOT, Kids: []*tx{v([]string{"int", "string", "float64"}[r.Intn(3)])}}
+	case 5:
+		tt := []string{"[]int", "map[string]int"}[r.Intn(2)]
+		return &tx{K: "bin", Op: []token.Token{token.EQL, token.NEQ}[r.Intn(2)], Kids: []*tx{v(tt), v(tt)}}
+	case 6:
+		tt := []string{"S", "bool", "*int"}[r.Intn(3)]
+		return &tx{K: "bin", Op: []token.Token{token.LSS, token.GEQ}[r.Intn(2)], Kids: []*tx{v(tt), v(tt)}}
+	case 7:
+		if t == "int" || t == "MyInt" {
+			return &tx{K: "lit", Lit: []string{"1.5", "0.25"}[r.Intn(2)], Val: []float64{1.5, 0.25}[r.Intn(2)]}
+		}
+		return &tx{K: "lit", Lit: `"str"`, Val: "str"}
+	}
+	return &tx{K: "bin", Op: token.LAND, Kids: []*tx{v("int"), v("int")}}
+}
+
 func (g *c01Gen) expr(t string, d int) *tx {
+	if g.wantE && !g.bad && g.r.Intn(25) == 0 {
+		g.bad = true
+		e := g.opError(t)
+		if e.K == "lit" && e.Lit == `"str"` && (t == "string" || t == "any") {
+			g.bad = false
+		} else {
+			return e
+		}
+	}
 	t = g.maybeWrong(t)
 	r := g.r
 	vs := g.vars(t)
@@ -1208,6 +1251,10 @@ func c01Class(msg string) *int {
 		cls = 3
 	case strings.Contains(msg, "MyInt") && (strings.Contains(msg, "as int value") || strings.Contains(msg, "mismatched types")):
 		cls = 4
+	case strings.Contains(msg, "not defined on") && strings.Contains(msg, "float64") && (strings.Contains(msg, "operator %") || strings.Contains(msg, "operator &") || strings.Contains(msg, "operator |") || strings.Contains(msg, "operator ^") || strings.Contains(msg, "operator <<") || strings.Contains(msg, "operator >>")):
+		cls = 5
+	case strings.Contains(msg, "can only be compared to nil"):
+		cls = 6
 	default:
 		return nil
 	}
